@@ -1,0 +1,37 @@
+//go:build verif
+
+package store
+
+import "time"
+
+// VerifReadState is the node-local state the read path bases its decisions on.
+// It exists only in builds with the verif tag and is read by the simulation
+// harness at quiescent points.
+type VerifReadState struct {
+	Leader             bool
+	Term               uint64
+	CommitIndex        uint64
+	RaftAppliedIndex   uint64
+	LastContact        time.Time
+	FSMIndex           uint64
+	FSMUpdateTime      time.Time
+	AppendedAtTime     time.Time
+	CommandCommitIndex uint64
+	StrongReadTerm     uint64
+}
+
+// VerifReadState returns the current read-path state. The Store must be open.
+func (s *Store) VerifReadState() VerifReadState {
+	return VerifReadState{
+		Leader:             s.IsLeader(),
+		Term:               s.raft.CurrentTerm(),
+		CommitIndex:        s.raft.CommitIndex(),
+		RaftAppliedIndex:   s.raft.AppliedIndex(),
+		LastContact:        s.raft.LastContact(),
+		FSMIndex:           s.fsmIdx.Load(),
+		FSMUpdateTime:      s.fsmUpdateTime.Load(),
+		AppendedAtTime:     s.appendedAtTime.Load(),
+		CommandCommitIndex: s.raftTn.CommandCommitIndex(),
+		StrongReadTerm:     s.strongReadTerm.Load(),
+	}
+}
